@@ -11,8 +11,7 @@ namespace Reg
 /-! ### well-formedness (holds at every point of every operation) -/
 
 structure WF (r : Reg) : Prop where
-  min2 : 2 ≤ r.min
-  minmax : r.min ≤ r.max
+  maxpos : 0 < r.max
   tc : r.tableCount = r.tables.length
   nodup : (r.tables.map (·.id)).Nodup
   idlt : ∀ t ∈ r.tables, t.id < r.nextId
@@ -157,8 +156,7 @@ theorem dispatchPlayer_spec {r r' : Reg} {cands rest : List Nat} (hwf : WF r) (h
           refine ⟨?_, ?_, ?_, rfl, hb⟩
           · simp only [setTable_eq]
             constructor
-            · exact hwf.min2
-            · exact hwf.minmax
+            · exact hwf.maxpos
             · simp only [upd_length]; exact hwf.tc
             · simp only []; rw [upd_ids]
               · exact hwf.nodup
@@ -291,8 +289,7 @@ theorem updateTableRequirements_spec (r : Reg) (hwf : WF r) (cands : List Nat) :
   split
   · refine ⟨?_, ?_, rfl, rfl, rfl, rfl, rfl⟩
     · constructor
-      · exact hwf.min2
-      · exact hwf.minmax
+      · exact hwf.maxpos
       · simp only [setReq, List.length_map]; exact hwf.tc
       · simp only [setReq_ids]; exact hwf.nodup
       · intro t' ht'
@@ -301,7 +298,7 @@ theorem updateTableRequirements_spec (r : Reg) (hwf : WF r) (cands : List Nat) :
       · intro t' ht'
         obtain ⟨t, ht, _, hc, hr⟩ := mem_setReq ht'
         have hb := hwf.bnd t ht
-        have hmaxpos : 0 < r.max := by have := hwf.min2; have := hwf.minmax; omega
+        have hmaxpos : 0 < r.max := hwf.maxpos
         have := ceilWl_le_max r hmaxpos
         simp only
         rcases hr with hr | ⟨hlt, hr⟩ <;> omega
@@ -346,8 +343,7 @@ theorem openTable_spec (r : Reg) (wl : Int) (k : Nat) (hwf : WF r) (hk : k ≤ r
   have hlen : (r.queue.take k).length ≤ k := by rw [List.length_take]; omega
   refine ⟨?_, ?_, rfl, ?_⟩
   · constructor
-    · exact hwf.min2
-    · exact hwf.minmax
+    · exact hwf.maxpos
     · simp only [openTable, List.length_append, List.length_cons, List.length_nil]
       have := hwf.tc; omega
     · simp only [openTable, List.map_append, List.map_cons, List.map_nil]
@@ -416,18 +412,15 @@ theorem allocateLoop_spec (fuel : Nat) : ∀ (wl reqT : Int) (r : Reg), WF r →
     split
     · rename_i hcond
       have hb := pullCount_bounds r wl
-      have hcap : (r.min : Int) ≤ r.capWl wl := capWl_ge r wl _ hcond.1 (by have := hwf.minmax; omega)
-      have hmin2 := hwf.min2
       split
       · rename_i hemp
-        have hq : r.queue = [] := by
+        have hq : r.queue.drop (r.pullCount wl).toNat = r.queue := by
           simp only [List.isEmpty_iff, List.take_eq_nil_iff] at hemp
           rcases hemp with h | h
-          · omega
-          · exact h
+          · rw [h, List.drop_zero]
+          · rw [h, List.drop_nil]
         have : ({ r with queue := r.queue.drop (r.pullCount wl).toNat } : Reg) = r := by
-          rw [hq]; simp
-          cases r; simp_all
+          rw [hq]
         rw [this]
         exact ⟨hwf, Ext.refl _ _, rfl, fun h => h⟩
       · obtain ⟨hwf2, hext2, hbad2, hq2⟩ := openTable_spec r (r.capWl wl) (r.pullCount wl).toNat hwf
@@ -479,7 +472,7 @@ theorem allocateTables_badChoice (r : Reg) : r.allocateTables.badChoice = r.badC
   · rw [h, allocateLoop_badChoice]
 
 theorem WF.setQueue {r : Reg} (hwf : WF r) (q : List Nat) : WF { r with queue := q } :=
-  ⟨hwf.min2, hwf.minmax, hwf.tc, hwf.nodup, hwf.idlt, hwf.bnd⟩
+  ⟨hwf.maxpos, hwf.tc, hwf.nodup, hwf.idlt, hwf.bnd⟩
 
 theorem Ext.setQueue (r : Reg) (q c : List Nat) : Ext r { r with queue := q } c c :=
   ⟨rfl, rfl, rfl, rfl, ⟨[], by simp, by simp, by simp, trivial, by simp⟩, Nat.le_refl _⟩
